@@ -30,7 +30,7 @@ def run_dims(chk, judge=None, replay=None, c08=False):
             raise vcheck.MachineryError('no transition emitted by NixDims ' + part)
         chk.note_tlc(run)
         if c08:      # an accepted call, or a call rejected without a trace where the specification expected success, is not C08's business
-            verdicts = [v for v in verdicts if v.get('c08') or recs.get(v.get('i'), {}).get('step', {}).get('res') == 'reject' or v.get('v') not in ('mismatch',)]
+            verdicts = [v for v in verdicts if v.get('c08') or recs.get(v.get('i'), {}).get('step', {}).get('res') == 'reject' or v.get('v') not in ('ok', 'mismatch', 'unjudgeable')]
         chk.absorb(recs, verdicts, rp)
     chk.exhaustive = True
     # long random histories (beyond the BFS depth): descriptor lists appended / emptied / edited many times on the same array
